@@ -107,6 +107,25 @@ class Mon:
         return f"bitset:{op}:{wide}"
 
 
+def check_derived(mon, r, model, case, tag):
+    """Operations applied to an operator RESULT (not a freshly constructed Bitset): a result object must behave
+    exactly like a fresh Bitset of the same value and length."""
+    n = len(model)
+    c2 = dict(case, derived_from=tag)
+    mon.eq("derived.int-str-bytes", (int(r), str(r), bytes(r)),
+           (m_val(model), "".join("1" if b else "0" for b in model), m_val(model).to_bytes((n + 7) // 8, "big")), c2)
+    mon.same("derived.invert", ~r, [not b for b in model], c2)
+    for k in sorted({0, min(1, n), n // 2, n}):
+        mon.same("derived.shl", r << k, m_shl(model, k), dict(c2, k=k))
+        mon.same("derived.shr", r >> k, m_shr(model, k), dict(c2, k=k))
+        mon.same("derived.lower", r.get_lower_bits(k), model[n - k:] if k else [], dict(c2, k=k))
+        mon.same("derived.higher", r.get_higher_bits(k), model[:k], dict(c2, k=k))
+    mon.same("derived.and-self", r & r, model, c2)
+    mon.same("derived.xor-invert", r ^ (~r), [True] * n, c2)
+    mon.same("derived.concat", r + r, model + model, c2)
+    mon.eq("derived.iter", list(r), model, c2)
+
+
 def check_unary(Bitset, bu, mon, v, n, acc, full=True):
     try:
         _check_unary(Bitset, bu, mon, v, n, acc, full)
@@ -137,6 +156,11 @@ def _check_unary(Bitset, bu, mon, v, n, acc, full=True):
     mon.eq("iter", list(a), model, case)
     mon.eq("len", a.bit_length(), n, case)
     mon.same("invert", ~a, [not b for b in model], case)
+    check_derived(mon, ~a, [not b for b in model], case, "invert")
+    if n:
+        check_derived(mon, a >> (n // 2 + 1), m_shr(model, n // 2 + 1), case, "shr")
+        check_derived(mon, a << 1, m_shl(model, 1), case, "shl")
+        check_derived(mon, a.get_higher_bits(n // 2), model[:n // 2], case, "higher")
     mon.eq("eq-self", a == Bitset(v, n), True, case)
     if n:
         mon.eq("eq-other-len", a == Bitset(v, n + 1), False, case)
@@ -177,6 +201,7 @@ def _check_unary(Bitset, bu, mon, v, n, acc, full=True):
     l, r = bu.half_bits(Bitset(v, n) if n else Bitset(0, 0))
     mon.same("half.left", l, m_ext(model[:n - half], half), case)
     mon.same("half.right", r, model[n - half:] if half else [], case)
+    check_derived(mon, l, m_ext(model[:n - half], half), case, "half.left")
     l, r = bu.half_bits_not_padding(Bitset(v, n) if n else Bitset(0, 0))
     mon.same("halfnp.left", l, model[:n - half], case)
     mon.same("halfnp.right", r, model[n - half:] if half else [], case)
@@ -212,6 +237,11 @@ def _check_binary(Bitset, mon, va, na, vb, nb, acc):
     mon.same("and", a & b, m_binop("and", ma, mb), case)
     mon.same("or", a | b, m_binop("or", ma, mb), case)
     mon.same("xor", a ^ b, m_binop("xor", ma, mb), case)
+    check_derived(mon, a & b, m_binop("and", ma, mb), case, "and")
+    check_derived(mon, a ^ b, m_binop("xor", ma, mb), case, "xor")
+    if (va + vb) % 3 == 0:
+        check_derived(mon, a | b, m_binop("or", ma, mb), case, "or")
+        check_derived(mon, cat, ma + mb, case, "concat")
     mon.eq("eq", a == b, (va == vb and na == nb), case)
     mon.eq("operands-unchanged", (a.value, len(a), b.value, len(b)), (va, na, vb, nb), case)
 
